@@ -88,6 +88,45 @@ N = {
  'C19-D': ('connection check factored into _wait_connected(): receive() loses its buffer re-check', 'event + final disconnection delivered before receive() reads connected', None),
  'C20-C': ('_handle_eio_disconnect iterates the live namespace view with a manager call per step', 'transport loss pre-empted while another thread removes the last member of a sibling namespace', None),
  'C20-D': ('is_connected rebuilt on eio_sid_from_sid (check-then-read on a half-dismantled table)', 'late thread evaluates is_connected while the winner is between two basic_leave_room calls', None),
+ 'C01-E': ('_data_is_binary returns the verdict of the first nested container instead of continuing with the siblings', 'a payload in which a list/dict without bytes precedes the sibling that is or holds the bytes leaf (the packet is not promoted, encode() raises TypeError)', 'C01: an exception from encode() on a well-formed packet is a violation (it was reported as a harness error before)'),
+ 'C01-F': ('"too many attachments" limits the declared count (> 10) instead of its digits', 'a binary packet with 11 or more bytes leaves', None),
+ 'C02-E': ('msgpack packets omit a falsy payload', 'msgpack serializer + emit with acknowledgement + handler returning nothing (the empty ACK cannot be decoded)', None),
+ 'C02-F': ('client _handle_eio_disconnect no longer drops a half-received binary packet', 'default serializer; the connection is lost after the header and before the last attachment of a server message; the same client object connects again (the CONNECT reply is eaten as the attachment)', 'C02: reconnect-after-partial-message op on the bridge (connect() must succeed, no handler sees anything that was not sent, the new connection is as transparent as the first); C08 caught it unchanged'),
+ 'C03-E': ('basic_enter_room looks the client up with eio_sid_from_sid (None for an unknown sid) instead of indexing the namespace room', 'enter_room() with the session id of a client that has gone while the namespace still has another client: ghost member', None),
+ 'C03-F': ('disconnect paths use "except Exception: log" + fall-through instead of try/finally around the disconnect handler', 'the disconnect handler ends with a non-Exception (green-thread Timeout / kill): the client stays in its rooms and is still delivered to', 'C03 + C04: scripted failing disconnect handlers (Exception and BaseException subclass)'),
+ 'C04-E': ('AsyncServer._handle_eio_disconnect: one try/finally around the namespace loop instead of try/except per namespace', 'asyncio, a transport connected to several namespaces is lost and the disconnect handler of an earlier namespace raises: the later namespaces are never ended', 'C04: scripted failing disconnect handlers'),
+ 'C04-F': ('ConnectionRefusedError drops falsy refusal data from error_args', 'ConnectionRefusedError(msg, x) with falsy x (0, None, "", [], {})', None),
+ 'C05-E': ('ACK only sent if the client is still connected when the handler returns', 'the handler itself disconnects its client and returns a value; or a DISCONNECT processed while the handler is blocked', 'C05: self-disconnecting handler op (added before the run, from the report)'),
+ 'C05-F': ('a tuple returned by a handler is handed to the ACK packet as is', 'default serializer, ack id, handler returns a tuple with a bytes member (binary auto-detection does not look into tuples)', None),
+ 'C06-E': ('the slot of a completed binary packet is released after the dispatch instead of before', 'a BINARY_ACK with attachments whose callback raises or is still running when the next frame of that transport is handled', 'C06: raising application callbacks; duplicate-ACK race with a multi-frame acknowledgement (second copy fed while the first callback runs, event-ordered instead of timed)'),
+ 'C06-F': ('AsyncServer: manager.disconnect() of a refused connection moved into the non-always_connect branch', 'asyncio + always_connect + connect handler that emits with a callback and then refuses; the client acknowledges afterwards', 'C06: /rej namespace whose connect handler emits with a callback and then accepts / refuses (always_connect on and off)'),
+ 'C07-E': ('listener skips a message equal to the previous one ("backend redelivery")', 'one host issues the same emit (same event, data, room, skip_sid, no callback) twice in a row', 'C07: identical emits repeated back to back (immediate mode): two deliveries per addressed client'),
+ 'C07-F': ('manager_initialized set after manager.initialize() instead of before', 'threaded server + message queue: the first connections of a fresh host overlap while the backend connection is being established: two listeners, every remote emit delivered twice', 'C07: fresh-host scenario (checks/c07_init.py) with a backend whose every _listen() call is its own subscription'),
+ 'C08-E': ('client _handle_disconnect rebuilds self.namespaces from a snapshot taken before the handler ran (lost update)', 'the server ends two namespaces back to back while the first disconnect handler is still running', 'C08: overlapping server DISCONNECTs (added before the run, from the report)'),
+ 'C09-E': ('client: a tuple returned by a handler is handed to the ACK packet as is', 'default serializer, event with id, handler returns a tuple with a bytes member', None),
+ 'C09-F': ('client call() collapses the acknowledged arguments with "or None"', 'an ACK with exactly one falsy argument consumed through call()', None),
+ 'C10-E': ('client sets connected=False before the disconnect handlers only if the namespace table says it is the last one', 'the server disconnects every namespace and the handlers overlap: connected stays True, the transport is never closed by the client, a later loss starts a reconnection', 'C10: cause "server ends every namespace with overlapping handlers, then the server closes the transport"; C08 caught it unchanged'),
+ 'C10-F': ('a namespace disconnected by the server is dropped from connection_namespaces', 'several namespaces, the server ends one of them, later accidental loss: the retries ask for fewer namespaces', 'C10: namespace ended before the loss (added before the run, from the report)'),
+ 'C11-E': ('basic_enter_room looks the client up with eio_sid_from_sid', 'enter_room() for a departed sid while another client keeps the namespace alive: entry that nothing removes', None),
+ 'C11-F': ('basic_disconnect drops the pending-disconnect mark before leaving the rooms instead of after', 'threaded: a second party passes can_disconnect/pre_disconnect in the window; handler twice, sid left in pending_disconnect', 'C11: concurrent terminations of one client (scheduler scenarios of C20, context-bounded) judged with the residue oracle; C20 caught it unchanged'),
+ 'C12-E': ('event payload check relaxed from list to Sequence', 'an event packet whose payload is a non-empty string: a handler runs with garbage arguments', None),
+ 'C12-F': ('_reconstruct_binary_internal leaves a placeholder whose index does not exist in place (LookupError swallowed)', 'a complete binary event with a placeholder num >= number of attachments (or < -number)', 'C12: crafted packets "complete binary event with one bad placeholder index": no handler may run'),
+ 'C13-E': ('threaded client: the legacy-disconnect retry uses the argument list without the catch-all namespace prefix', 'Client + disconnect + function handler of the "*" namespace that takes no reason argument', 'C13: legacy disconnect signatures (added before the run, from the report)'),
+ 'C13-F': ('server falls back to the "*" class-based namespace when the namespace\'s own class lacks on_<event>', 'own class-based namespace without the method + a "*" class-based namespace', 'C13: independent method flags for the own and the catch-all class (added before the run)'),
+ 'C14-E': ('AsyncServer accepts CONNECT on any namespace once a catch-all handler exists', 'catch-all handler registered, namespaces option not "*", CONNECT to an unlisted namespace', None),
+ 'C14-F': ('AsyncClient keeps pending callbacks across an automatic reconnection', 'callback outstanding, accidental loss, reconnection, ACK with the old id', None),
+ 'C15-E': ('listener restart handler logs the last message (unbound before the first message)', 'the listen iterator fails before it has delivered any message (UnboundLocalError ends the listener)', 'C15: listen failures at position 0 (added before the run, from the report)'),
+ 'C15-F': ('table-driven dispatch: own-host echoes of enter_room / leave_room are applied again', 'an own-host echo of enter_room/leave_room for a sid connected to this server', 'C15: room view after own-host echoes (added before the run)'),
+ 'C16-E': ('threaded server discards the namespace\'s user session after manager.disconnect() returned', 'threaded: a re-CONNECT of the namespace on the same transport handled by another thread in that window; the session its connect handler saved is wiped', 'C16: checks/c16_sched.py, re-CONNECT racing the end of the old connection, all schedules with pre-emption at manager calls, engine.io sends and session-store accesses'),
+ 'C16-F': ('AsyncServer.save_session stores a copy of the dict', 'three session() blocks of one client, the first suspended across the others: its later modifications go to a dict that is no longer the stored one', 'C16: sequential inner blocks inside an outer block (added before the run)'),
+ 'C17-E': ('Namespace.emit/send/call raise for the catch-all namespace', 'a class-based namespace registered for "*" calling emit() without namespace', 'C17: "*" registration namespace (added before the run)'),
+ 'C17-F': ('_set_server/_set_client bind only once', 'the same namespace object registered with a second server / client', 'C17: re-registration with a decoy (added before the run)'),
+ 'C18-E': ('admin _emit wrapper serialises emits with a non-reentrant lock', 'a silently dead client is found by an emit: the disconnect processing inside the emit reports to the admin namespace and blocks on the lock its own thread holds', 'C18: scripts with silently dead clients (back-dated ping) + hang guard (a run that is stuck on the same stack after 40 s while the plain server finished is a violation); this also exposed a genuine defect, fixed in 49a89d8'),
+ 'C18-F': ('admin serialize_socket reports the namespace\'s user session as "data"', 'admin connected, development mode, a session holding a non-serialisable object, namespace re-connect on the same transport (or a ping cycle)', 'C18: scripts that store a Python object in a session, leave the namespace and come back'),
+ 'C19-E': ('catch-all handler only signals the empty -> non-empty transition', 'threaded: the application drains the buffer and starts waiting between the handler\'s emptiness test and its append', None),
+ 'C19-F': ('client _handle_eio_disconnect no longer drops a half-received binary packet (same edit as C02-F, found independently)', 'loss between header and last attachment of an event, reconnection succeeds: receive() returns an event nobody sent', 'C19: loss in the middle of an event with successful reconnection (receive() returns exactly the complete events, in order)'),
+ 'C20-E': ('server.disconnect() drops the client\'s half-received binary packet with get + del', 'threaded: the transport loss is processed between the get and the del: KeyError after the gate was won, handler never runs, client never removed', 'C20: the per-transport tables (_binary_packet, environ) are pre-emption points; iterative context bounding (all schedules with <= 1 and <= 2 pre-emptions first)'),
+ 'C20-F': ('the namespace\'s user session is popped from the engine.io session when the namespace is disconnected', 'threaded: the transport loss completes while the first terminating action is between the gate and its finally: eio.get_session raises KeyError', None),
 }
 
 
